@@ -27,13 +27,13 @@ fn every_strategy_returns_true_bytes_or_a_strict_prefix() {
     let truth = region.to_vec();
     let end = base + PAGES * PAGE;
 
-    match unsafe { fork() }.expect("fork") {
+    match unsafe { fork() }.expect("setup: fork") {
         ForkResult::Child => loop {
             std::thread::sleep(std::time::Duration::from_secs(1));
         },
         ForkResult::Parent { child } => {
-            ptrace::attach(child).expect("attach");
-            waitpid(child, None).expect("waitpid");
+            ptrace::attach(child).expect("setup: attach");
+            waitpid(child, None).expect("setup: waitpid");
             let pid = child.as_raw();
             let mut lens: Vec<usize> = (1..=24).collect();
             lens.extend([PAGE - 9, PAGE - 1, PAGE, PAGE + 1, PAGE + 13, 2 * PAGE - 3, 2 * PAGE, 2 * PAGE + 5]);
@@ -53,7 +53,7 @@ fn every_strategy_returns_true_bytes_or_a_strict_prefix() {
                         let want = &truth[src - base..src - base + readable];
                         let mut reader = match mk {
                             0 => MemReader::for_virtual_mem(pid),
-                            1 => MemReader::for_file(pid).expect("open /proc/pid/mem"),
+                            1 => MemReader::for_file(pid).expect("setup: open /proc/pid/mem"),
                             _ => MemReader::for_ptrace(pid),
                         };
                         // read(): poisoned destination, so stale data is visible
